@@ -73,6 +73,20 @@ F(n, k, fl) == [n |-> n, k |-> k, f |-> fl]
 (*         query  - the URL parameter is a query-string option (optional)   *)
 (*         float  - the URL number is a real number                         *)
 (*         nohuge - no "huge" class: answering costs as much as the value   *)
+(*  RPC    : arguments of a command of the RPC path (server/rpc.go          *)
+(*           handleCommand, the datatypes' DoRPC; flag "rpc" of the row):   *)
+(*           auuid (version UUID)  aname (instance / store name)  atype     *)
+(*           (datatype name)  aword (the command word)  apoint ("x,y,z")    *)
+(*           afile (path of a file the server opens)  aint (number)  akey   *)
+(*           (free-form word: key, user, branch, alias)  ainput (what the   *)
+(*           client read from stdin)                                        *)
+(* Flags:  exists - the argument must name something that exists            *)
+(*         opt    - the argument may be left out                            *)
+(*         sync   - the file is opened before the command is answered       *)
+(*         unsigned - the number is parsed as unsigned                      *)
+(*         late   - the argument is used after the command has been answered *)
+(*                  ("Started ..."), or its error goes to the server log only *)
+(*         newname- the argument is a name to be given (an empty name is one) *)
 (***************************************************************************)
 
 \* ---- binary layouts ------------------------------------------------------
@@ -152,6 +166,10 @@ CommitObj == << F("root", "jobj", {"typed"}), F("note", "jstr", {"typed"}), F("l
 BranchObj == << F("root", "jobj", {"typed"}), F("branch", "jstr", {"typed"}), F("note", "jstr", {"typed"}) >>
 InstanceCfg == << F("root", "jobj", {"typed"}), F("typename", "jstr", {"typed", "enum"}), F("dataname", "jstr", {"typed"}),
                   F("BlockSize", "jstr", {"typed", "triple"}), F("VoxelSize", "jstr", {"typed", "triple"}) >>
+
+\* ---- RPC argument layouts ----
+NodeCmd == << F("uuid", "auuid", {"exists"}), F("data", "aname", {"exists"}), F("word", "aword", {}) >>
+RepoCmd == << F("uuid", "auuid", {"exists"}), F("word", "aword", {}) >>
 
 \* ---- URL parameter layouts ----
 Vol3(hugerej) == << F("shape", "ushape", {}), F("size", "usize", IF hugerej THEN {"hugerej"} ELSE {}), F("offset", "uoff", {}) >>
@@ -245,7 +263,35 @@ Endpoints == <<
     EP("kv.getkeyvalues", "kv",  "json", {}, KeyList, <<>>),
     EP("kv.tags",        "kv",   "json", {"mut", "emptyok"}, TagsObj, <<>>),
     EP("node.commit",    "meta", "json", {"mut"}, CommitObj, <<>>),
-    EP("node.branch",    "meta", "json", {"mut"}, BranchObj, <<>>)
+    EP("node.branch",    "meta", "json", {"mut"}, BranchObj, <<>>),
+    \* commands of the RPC path: the "url" is the argument list after the first word ("node" / "repo" / ...)
+    EP("rpc.kv.put",        "kv",   "none", {"mut", "rpc"}, <<>>, NodeCmd \o << F("key", "akey", {}), F("stdin", "ainput", {}) >>),
+    EP("rpc.nj.put",        "nj",   "none", {"mut", "rpc"}, <<>>, NodeCmd \o << F("key", "akey", {}), F("stdin", "ainput", {}) >>),
+    EP("rpc.nj.importkv",   "nj",   "none", {"mut", "rpc"}, <<>>, NodeCmd \o << F("source", "aname", {"exists"}) >>),
+    EP("rpc.nj.ingest",     "nj",   "none", {"mut", "rpc"}, <<>>, NodeCmd \o << F("file", "afile", {"sync"}), F("user", "akey", {}) >>),
+    EP("rpc.nj.versionchanges", "nj", "none", {"rpc"},      <<>>, NodeCmd \o << F("file", "akey", {"late"}) >>),
+    EP("rpc.gray.load",     "gray", "none", {"mut", "rpc"}, <<>>, NodeCmd \o << F("offset", "apoint", {}), F("file", "afile", {"sync"}) >>),
+    EP("rpc.lm.load",       "lm",   "none", {"mut", "rpc"}, <<>>, NodeCmd \o << F("offset", "apoint", {}), F("file", "afile", {"sync"}) >>),
+    EP("rpc.lm.setnextlabel", "lm", "none", {"mut", "rpc"}, <<>>, NodeCmd \o << F("label", "aint", {"unsigned"}) >>),
+    EP("rpc.ann.reload",    "ann",  "none", {"mut", "rpc"}, <<>>, NodeCmd),
+    EP("rpc.node.help",     "kv",   "none", {"rpc"},        <<>>, << F("uuid", "auuid", {"exists"}), F("data", "aname", {"exists"}), F("word", "aword", {"opt"}) >>),
+    EP("rpc.repo.new",      "newinst", "none", {"mut", "rpc"}, <<>>, RepoCmd \o << F("type", "atype", {"exists"}), F("name", "aname", {"newname"}) >>),
+    EP("rpc.repo.branch",   "meta", "none", {"mut", "rpc"}, <<>>, RepoCmd \o << F("branch", "akey", {"opt"}), F("newuuid", "akey", {"opt"}) >>),
+    EP("rpc.repo.newversion", "meta", "none", {"mut", "rpc"}, <<>>, RepoCmd \o << F("newuuid", "akey", {"opt"}) >>),
+    EP("rpc.repo.merge",    "meta", "none", {"mut", "rpc"}, <<>>, RepoCmd \o << F("parent", "auuid", {"exists"}) >>),
+    EP("rpc.repo.rename",   "newinst", "none", {"mut", "rpc"}, <<>>, RepoCmd \o << F("old", "aname", {"exists"}), F("new", "aname", {"newname"}) >>),
+    EP("rpc.repo.delete",   "newinst", "none", {"mut", "rpc"}, <<>>, RepoCmd \o << F("name", "aname", {"exists"}) >>),
+    \* the copy runs after the command is answered: a bad source or target is reported in the log only
+    EP("rpc.repo.copy",     "newinst", "none", {"mut", "rpc"}, <<>>, RepoCmd \o << F("source", "aname", {"late"}), F("target", "aname", {"late"}) >>),
+    EP("rpc.repo.migrate",  "meta", "none", {"rpc"},        <<>>, RepoCmd \o << F("instance", "aname", {"late"}), F("srcstore", "aname", {"exists"}), F("dststore", "aname", {"exists"}) >>),
+    \* commands that take a configuration file (their errors are logged, the command is answered either way)
+    EP("rpc.repo.limitversions", "meta", "none", {"rpc"},   <<>>, RepoCmd \o << F("file", "afile", {"late"}) >>),
+    EP("rpc.repo.flattenmetadata", "meta", "none", {"rpc"}, <<>>, RepoCmd \o << F("file", "afile", {"sync"}) >>),
+    EP("rpc.repo.migratebatch", "meta", "none", {"rpc"},    <<>>, RepoCmd \o << F("file", "afile", {"late"}) >>),
+    EP("rpc.repo.hidebranch", "meta", "none", {"rpc"},      <<>>, RepoCmd \o << F("branch", "akey", {"late"}) >>),
+    EP("rpc.repo.makemaster", "meta", "none", {"rpc"},      <<>>, RepoCmd \o << F("oldmaster", "akey", {"late"}) >>),
+    EP("rpc.repos.new",     "newinst", "none", {"mut", "rpc"}, <<>>, << F("word", "aword", {}), F("alias", "akey", {"opt"}), F("description", "akey", {"opt"}) >>),
+    EP("rpc.types.help",    "meta", "none", {"rpc"},        <<>>, << F("type", "atype", {"exists"}), F("word", "aword", {}) >>)
 >>
 
 EPIndex == 1..Len(Endpoints)
@@ -255,7 +301,8 @@ EPIndex == 1..Len(Endpoints)
 (***************************************************************************)
 BinKinds  == {"hdr", "coord", "dim", "len", "cnt", "idx", "lbl", "run", "blob", "rest", "gz", "tag", "vint"}
 JSONKinds == {"jint", "jstr", "jlist", "jobj", "jkey"}
-URLKinds  == {"usize", "uoff", "ucoord", "ulabel", "uint", "ukey", "ushape"}
+ArgKinds  == {"auuid", "aname", "atype", "aword", "apoint", "afile", "aint", "akey", "ainput"}
+URLKinds  == {"usize", "uoff", "ucoord", "ulabel", "uint", "ukey", "ushape"} \cup ArgKinds
 
 ClassesOf(fld) ==
     LET k == fld.k IN
@@ -276,6 +323,13 @@ ClassesOf(fld) ==
     \cup (IF k = "uint" THEN {"nonnum", "neg", "huge", "overflow", "zero"} ELSE {})
     \cup (IF k = "ukey" THEN {"long", "weird"} ELSE {})
     \cup (IF k = "ushape" THEN {"nonnum", "short"} ELSE {})
+    \* arguments of RPC commands
+    \cup (IF k \in {"auuid", "aname", "atype", "aword"} THEN {"unknown", "weird", "long"} ELSE {})
+    \cup (IF k = "apoint" THEN {"nonnum", "short", "neg", "huge", "overflow"} ELSE {})
+    \cup (IF k = "aint" THEN {"nonnum", "neg", "huge", "overflow", "zero"} ELSE {})
+    \cup (IF k = "akey" THEN {"long", "weird"} ELSE {})
+    \cup (IF k = "afile" THEN {"nofile", "isdir", "emptyfile", "garbagefile"} ELSE {})
+    \cup (IF k = "ainput" THEN {"garbage", "big"} ELSE {})
     \* the parameter is left out altogether (an empty path segment, or an empty query value)
     \cup (IF k \in URLKinds THEN {"missing"} ELSE {})
 
@@ -289,7 +343,8 @@ BodyClasses(ep) ==
 (* The oracle.                                                              *)
 (***************************************************************************)
 ExpectField(ep, cls, fld) ==
-    CASE cls = "trunc_before" -> IF "cutok" \in fld.f THEN "any" ELSE "reject"
+    CASE "late" \in fld.f      -> "any"
+      [] cls = "trunc_before" -> IF "cutok" \in fld.f THEN "any" ELSE "reject"
       [] cls = "trunc_mid"    -> IF "midok" \in fld.f THEN "any" ELSE "reject"
       [] cls = "inflate"      -> "reject"
       [] cls = "idx_out"      -> "reject"
@@ -309,13 +364,18 @@ ExpectField(ep, cls, fld) ==
       [] cls = "short"        -> "reject"
       \* a label is unsigned: "-1" is not a label; negative offsets and points are ordinary, and a
       \* negative size or count is at worst an empty request (no rejection is demanded)
-      [] cls = "neg"          -> IF fld.k = "ulabel" THEN "reject" ELSE "any"
+      [] cls = "neg"          -> IF fld.k = "ulabel" \/ "unsigned" \in fld.f THEN "reject" ELSE "any"
       [] cls = "huge"         -> IF "hugerej" \in fld.f THEN "reject" ELSE "any"
       [] cls = "label0"       -> IF "l0rej" \in fld.f THEN "reject" ELSE "any"
       [] cls = "labelmax"     -> "any"
       \* an empty key bounds a key range from below; an optional query option may be left out
-      [] cls = "missing"      -> IF "query" \in fld.f \/ fld.k = "ukey" THEN "any" ELSE "reject"
+      [] cls = "missing"      -> IF fld.f \cap {"query", "opt", "newname"} # {} \/ fld.k = "ukey" THEN "any" ELSE "reject"
+      \* an argument that must name an existing version, instance, datatype or command, and does not
+      [] cls \in {"unknown", "long", "weird"} /\ fld.k \in {"auuid", "aname", "atype", "aword"} ->
+                                 IF "exists" \in fld.f \/ fld.k = "aword" THEN "reject" ELSE "any"
       [] cls \in {"long", "weird"} -> "any"
+      \* a file that does not exist is refused when the command opens it before answering
+      [] cls = "nofile"       -> IF "sync" \in fld.f THEN "reject" ELSE "any"
       [] OTHER                -> "any"
 
 ExpectBody(ep, cls) ==
@@ -336,7 +396,8 @@ CasesOf(e) ==
             \* cutting in front of the very first field is the "empty" class
             /\ ~(pc[1] = 1 /\ pc[2] \in {"trunc_before", "jtrunc"})}}
     \cup {[e |-> e, part |-> "url", pos |-> p, cls |-> c] : <<p, c>> \in
-        {pc \in (1..Len(ep.url)) \X {"nonnum", "neg", "huge", "overflow", "short", "zero", "label0", "labelmax", "long", "weird", "missing"} :
+        {pc \in (1..Len(ep.url)) \X {"nonnum", "neg", "huge", "overflow", "short", "zero", "label0", "labelmax", "long", "weird", "missing",
+                                      "unknown", "nofile", "isdir", "emptyfile", "garbagefile", "garbage", "big"} :
             pc[2] \in ClassesOf(ep.url[pc[1]])}}
     \cup {[e |-> e, part |-> "whole", pos |-> 0, cls |-> c] : c \in BodyClasses(ep)}
 
@@ -356,7 +417,9 @@ MayChange(e) ==
     IF "mut" \notin ep.f THEN {}
     ELSE IF ep.scope = "lm" THEN
         {"lm", "ann"} \cup (IF ep.name \in Relabelling THEN {"lmorig"} ELSE {})
+                      \cup (IF "rpc" \in ep.f THEN {"meta"} ELSE {})   \* commands are logged in the node log
     ELSE IF ep.scope = "newinst" THEN {"newinst", "meta"}   \* a new instance is logged in the repo log
+    ELSE IF "rpc" \in ep.f THEN {ep.scope, "meta"}   \* commands are logged in the node log
     ELSE {ep.scope}
 
 Allowed(c) == IF Expect(c) = "reject" THEN {"4xx"} ELSE {"2xx", "4xx"}
